@@ -8,6 +8,7 @@ CONSTANTS
  GenLen = 26
  Crashes = FALSE
  FaultAfter = 0
+ StopFrom = 2
  GenCfgs = "all"
 INVARIANTS Emit
 CHECK_DEADLOCK FALSE
